@@ -51,7 +51,7 @@ def units(tier, seed):
     us.append(('triples',))
     us.append(('self',))
     us.append(('minmax',))
-    for i in range(12 if tier == 'quick' else 64):
+    for i in range(12 if tier == 'quick' else 640):
         us.append(('random', i))
     return us
 
